@@ -52,6 +52,11 @@ def run(ctx):
     for i in range(ctx.scale(1200, 12000)):
         sc = B.gen_scenario(ctx.rng, with_fault=False)
         one(ctx, sc, ctx.rng.randrange(1 << 30))
+    # last sentence of C05 ("released ... or with the failure - and never blocks forever"): a share of
+    # fault plans (the full fault exploration is C06's)
+    for i in range(ctx.scale(300, 3000)):
+        sc = B.gen_scenario(ctx.rng, with_fault=True)
+        one(ctx, sc, ctx.rng.randrange(1 << 30), component="batcher.fault")
 
 
 def search(ctx):
